@@ -275,6 +275,22 @@ def _run_1d(rec, construct, q, zero, ctx, geom, n):
     finally:
         _state["current"] = None
     rec.check("constructs", True)
+    # a copied / pickled resolution object is the same smearing operator
+    import copy as _copy, pickle as _pickle
+    ftest = np.sin(23.0*np.asarray(res.q_calc)) + 2.0 + np.asarray(res.q_calc)
+    base_out = np.asarray(res.apply(ftest), float)
+    _state["current"] = None
+    for how, clone in (("deepcopy", lambda: _copy.deepcopy(res)), ("pickle", lambda: _pickle.loads(_pickle.dumps(res)))):
+        try:
+            twin = clone()
+            same = bool(np.array_equal(np.asarray(twin.q_calc), np.asarray(res.q_calc))
+                        and np.array_equal(np.asarray(twin.apply(ftest), float), base_out, equal_nan=True))
+            rec.check("copy_is_same_operator", same,
+                      dict({k: v for k, v in ctx.items() if not k.startswith("_") and k != "key"}, how=how,
+                           nq_calc=[len(np.asarray(res.q_calc)), len(np.asarray(twin.q_calc))]))
+        except Exception as exc:
+            rec.check("copy_is_same_operator", False,
+                      dict({k: v for k, v in ctx.items() if not k.startswith("_") and k != "key"}, how=how, exception=repr(exc)))
     if _state["evals"] == before:
         rec.inconclusive("class invariant was not evaluated on construction")
     if zero:
